@@ -16,6 +16,8 @@ var Plans = map[string][]PlanItem{
 	"C13": {{Scen: "reuse", Quick: 8000, Thorough: 500000}},
 	"C15": {{Scen: "immutability", Quick: 2000, Thorough: 200000}},
 	"C17": {{Scen: "tree", Quick: 3000, Thorough: 200000}},
+	"C12": {{Scen: "persist-fault", Quick: 160, Thorough: 12000}},
+	"C19": {{Scen: "read-fault", Quick: 240, Thorough: 16000}},
 	"C11": {{Scen: "world", Quick: 3000, Thorough: 150000}},
 	"C16": {{Scen: "world", Quick: 4000, Thorough: 250000}},
 }
